@@ -91,6 +91,11 @@ CHECKS = {
             "Complete enumeration of the date domain in both tiers and of the 10 ms time-of-day domain in the thorough tier (quick: boundary grid + 200k random); stamping rules checked on generated histories with the access-date option on and off.",
             "trusted: own transcription of the DOS date/time bit layout (Ts::from_words), the stamping model, proptest; directories written into are exempt",
             "DESIGN.md 5 C18"),
+    "C19": ("exploration",
+            "differential testing across build configurations: proptest-generated histories and raw directory regions executed by one driver source compiled against fatfs with three feature sets; pairwise comparison of observation traces and final image hashes; ddmin shrinking of the op list",
+            "Generated-input search: 40000 (quick) / 800000 (thorough) histories with names up to 258 characters from three alphabets, incl. the fixed-buffer half of C17 (raw long-name runs).",
+            "trusted: the driver source being identical across builds, proptest; only the three listed feature sets",
+            "DESIGN.md 5 C19"),
 }
 
 PENDING_REASON = "check under construction in this session; not claimed yet (technique applies, see DESIGN.md)"
